@@ -47,7 +47,9 @@ type c10Cfg struct {
 	Rules     []c10Rule
 }
 
-var c10Suffixes = []string{"a.test", "b.test", "x.a.test", "y.x.a.test", "c.example", "test", "d.c.example"}
+var c10Suffixes = []string{"a.test", "b.test", "x.a.test", "y.x.a.test", "c.example", "test", "d.c.example",
+	// labels beyond 24 octets (the domain matcher keeps short and long labels in different tables)
+	"customer-portal-of-a-rather-long-label.example", "a-label-of-exactly-25-oct.test", "cdn.customer-portal-of-a-rather-long-label.example"}
 
 func c10Gen(r *gen.R) *c10Cfg {
 	cfg := &c10Cfg{SharedURL: r.P(0.3), Cache: r.P(0.4)}
@@ -59,6 +61,17 @@ func c10Gen(r *gen.R) *c10Cfg {
 		nEntries := r.Range(1, 4)
 		if r.P(0.12) {
 			nEntries = 0 // a list that holds nothing but comments: the set matches no name
+		}
+		if nEntries > 0 && r.P(0.3) {
+			// a domain and one of its sub-domains in the same list, in either order (merged block lists
+			// are full of such redundant lines): the broader entry decides for the domain itself and
+			// for every other sub-domain
+			suf := gen.Pick(r, c10Suffixes)
+			pair := []string{"domain:" + suf, "domain:sub." + suf}
+			if r.Bool() {
+				pair[0], pair[1] = pair[1], pair[0]
+			}
+			s.Entries = append(s.Entries, pair...)
 		}
 		for k := 0; k < nEntries; k++ {
 			suf := gen.Pick(r, c10Suffixes)
@@ -292,6 +305,19 @@ func c10Good(c *Ctx, idx int) {
 		case 4:
 		default:
 			name = c03RandCase(r, name)
+		}
+		if r.P(0.15) {
+			// a first label with octets above 0x7f (raw UTF-8 / Latin-1 text, e.g. 0xC3 0x9C): only the
+			// ASCII letters A-Z are folded, every other octet reaches the upstream as the client sent it
+			lbl := ""
+			for i := r.Range(2, 6); i > 0; i-- {
+				if r.Bool() {
+					lbl += fmt.Sprintf("\\%03d", r.Range(0x80, 0xff))
+				} else {
+					lbl += string(rune('A' + r.Intn(26)))
+				}
+			}
+			name = lbl + "." + name
 		}
 		pr := &probe{name: name, qtype: gen.Pick(r, []uint16{dns.TypeA, dns.TypeAAAA, dns.TypeTXT, dns.TypeMX, 65}), class: dns.ClassINET, viaTCP: r.P(0.3)}
 		if r.P(0.1) {
